@@ -15,13 +15,11 @@ def i32At (b : ByteArray) (i : Nat) : Int :=
 def vmatch (data : ByteArray) (p len off : Nat) : Bool :=
   1 ≤ off && off ≤ 65535 && off ≤ p && p + len ≤ data.size && (List.range len).all (fun k => data.get! (p + k) == data.get! (p + k - off))
 
-def judgeHC (r : Rec) : List (String × String) × List String := Id.run do
-  let level := r.nat 0
-  let data := r.bytes 1
-  let log := r.bytes 2
-  let ret := r.int 3
-  let out := r.bytes 4
-  let n := data.size
+/-- `hist` : what precedes the block for the decoder (empty for a one-shot call); positions of the log are relative to the block -/
+def judgeHCcore (level : Nat) (hist block log : ByteArray) (ret : Int) (out : ByteArray) : List (String × String) × List String := Id.run do
+  let H := hist.size
+  let data := hist ++ block
+  let n := block.size
   let mut best : Std.HashMap Nat M := {}
   let mut wider : Std.HashMap (Nat × Nat × Nat) (Nat × M) := {}
   let mut emits : List Emit := []
@@ -29,42 +27,48 @@ def judgeHC (r : Rec) : List (String × String) × List String := Id.run do
   let nent := log.size / 28
   for k in [0:nent] do
     let kind := i32At log (28 * k)
-    let a := (i32At log (28 * k + 4)).toNat
-    let b := (i32At log (28 * k + 8)).toNat
+    let a := (i32At log (28 * k + 4)).toNat + H
+    let b := (i32At log (28 * k + 8)).toNat + H
     let c := i32At log (28 * k + 12)
     let d := i32At log (28 * k + 16)
     let e := i32At log (28 * k + 20)
     let f := i32At log (28 * k + 24)
     if kind == 1 then
-      -- best match at ip = a : len d, off e
       best := best.insert a ⟨e.toNat, d.toNat⟩
       if fails.isEmpty && d ≥ 4 && !vmatch data a d.toNat e.toNat then
-        fails := [("hc_oracle_contract_broken", s!"level {level}: LZ4HC_InsertAndFindBestMatch at {a} answers len={d} off={e}: not a byte-verified match inside the window")]
+        fails := [("hc_oracle_contract_broken", s!"level {level}: LZ4HC_InsertAndFindBestMatch at {a - H} (history {H}) answers len={d} off={e}: not a byte-verified match inside the window")]
     else if kind == 2 then
-      -- wider match: call start a, low limit b, longest c : len d, off e, back f (≤ 0)
       let st := ((a : Int) + f).toNat
       wider := wider.insert (a, b, c.toNat) (st, ⟨e.toNat, d.toNat⟩)
       if fails.isEmpty && d > c && (!(b ≤ st && st ≤ a) || !vmatch data st d.toNat e.toNat) then
-        fails := [("hc_oracle_contract_broken", s!"level {level}: LZ4HC_InsertAndGetWiderMatch(start={a}, low={b}, longest={c}) answers len={d} off={e} back={f}: not a byte-verified match inside the window")]
+        fails := [("hc_oracle_contract_broken", s!"level {level}: LZ4HC_InsertAndGetWiderMatch(start={a - H}, low={b - H}, longest={c}) (history {H}) answers len={d} off={e} back={f}: not a byte-verified match inside the window")]
     else
       emits := ⟨a, b, c.toNat, d.toNat⟩ :: emits
   let real := emits.reverse
   let o : Oracle := { best := fun ip => (best.get? ip).getD ⟨0, 0⟩,
                       wider := fun s l g => (wider.get? (s, l, g)).getD (s, ⟨0, 0⟩) }
   if !fails.isEmpty then return (fails, [])
-  -- the parser model on the logged oracle
-  let mres := HC.compress o data.toList (2 * n + 16)
-  let mrun := if n < 13 then [] else (HC.run o (n - 12) (2 * n + 16) (.main 0 0)).2
+  let mres := HC.compressH o hist.toList block.toList (2 * n + 16)
+  let mrun := if n < 13 then [] else (HC.run o (H + n - 12) (2 * n + 16) (.main H H)).2
   if mrun.length != real.length || !(List.zip mrun real).all (fun (x, y) => x.anchor == y.anchor && x.ip == y.ip && x.len == y.len && x.off == y.off) then
     let d := (List.range (min mrun.length real.length)).find? (fun i => match mrun[i]?, real[i]? with
       | some x, some y => !(x.anchor == y.anchor && x.ip == y.ip && x.len == y.len && x.off == y.off) | _, _ => true)
-    return ([("model_hc_parse_differs", s!"level {level} n={n}: model emits {mrun.length} sequences, real {real.length}; first difference at {d}")], [])
+    return ([("model_hc_parse_differs", s!"level {level} n={n} history={H}: model emits {mrun.length} sequences, real {real.length}; first difference at {d}")], [])
   match mres with
   | none => return ([("model_hc_parse_differs", s!"level {level} n={n}: the parser model does not reach the end of the block")], [])
   | some blk =>
     if ret ≤ 0 then return ([("model_hc_parse_differs", s!"level {level} n={n}: real returns {ret}")], [])
-    if blk != out.toList then return ([("model_hc_block_differs", s!"level {level} n={n}: model block {blk.length} bytes, real {out.size} bytes")], [])
+    if blk != out.toList then return ([("model_hc_block_differs", s!"level {level} n={n} history={H}: model block {blk.length} bytes, real {out.size} bytes")], [])
     return ([], [s!"hc.level.{level}", if real.length == 0 then "hc.seqs.0" else if real.length < 10 then "hc.seqs.few" else "hc.seqs.many",
-                 if wider.size > 0 then "hc.wider_used" else "hc.no_wider"])
+                 if wider.size > 0 then "hc.wider_used" else "hc.no_wider", if H == 0 then "hc.no_history" else "hc.with_history",
+                 if real.any (fun e => e.off > e.ip - H) then "hc.match_into_history" else "hc.matches_in_block_only"])
+
+/-- op 18: one-shot `LZ4_compress_HC` -/
+def judgeHC (r : Rec) : List (String × String) × List String :=
+  judgeHCcore (r.nat 0) ByteArray.empty (r.bytes 1) (r.bytes 2) (r.int 3) (r.bytes 4)
+
+/-- op 19: one block of an `LZ4_compress_HC_continue` session / after `LZ4_loadDictHC`, with the history the decoder has -/
+def judgeHCstream (r : Rec) : List (String × String) × List String :=
+  judgeHCcore (r.nat 0) (r.bytes 1) (r.bytes 2) (r.bytes 3) (r.int 4) (r.bytes 5)
 
 end LZ4V.Judge
